@@ -301,7 +301,18 @@ fn cmd_replay(args: &Args) -> i32 {
         report(&format!("HARNESS-ERROR {e}"));
         return 2;
     }
-    match o.violation {
+    let mut violation = o.violation.clone();
+    if let Some(v) = violation.as_mut() {
+        if rf.property == "C09" && v.kind.starts_with("after-upgrade:") {
+            // attribution to C09: the same trace without upgrades must be clean
+            let twin_events: Vec<Event> = rf.events.iter().filter(|e| !matches!(e, Event::Upgrade { .. })).cloned().collect();
+            let twin = replay_trace(rf.config.clone(), twin_events);
+            if twin.violation.is_none() && twin.harness_error.is_none() {
+                v.property = "C09".into();
+            }
+        }
+    }
+    match violation {
         Some(v) => {
             report(&format!(
                 "REPLAYED property={} kind={} at_event={} digest={:016x}",
